@@ -5,6 +5,7 @@ import (
 	"go/types"
 	"golang.org/x/tools/go/ssa"
 	"os"
+	"strings"
 )
 
 func init() {
@@ -185,5 +186,22 @@ func init() {
 	register("DBGE", func(p *Prog, r *Report) {
 		f := p.Func(os.Getenv("DBG_PKG"), os.Getenv("DBG_ENTRY"))
 		fmt.Println("ENTRY", relList(p.entryRels(f)))
+	})
+}
+
+func init() {
+	if os.Getenv("DBG_BLK") == "" {
+		return
+	}
+	register("DBGB", func(p *Prog, r *Report) {
+		for _, f := range p.FuncsIn(Mod) {
+			p.instrs(f, func(b *ssa.BasicBlock, i int, in ssa.Instruction) {
+				mi, ok := in.(*ssa.MakeInterface)
+				if !ok || !strings.HasSuffix(types.TypeString(mi.X.Type(), nil), "coq.BlockExpr") {
+					return
+				}
+				fmt.Println("BLK", FuncName(f), p.Pos(instrPos(in)), sk(mi.X))
+			})
+		}
 	})
 }
